@@ -35,6 +35,16 @@ CHECKS.update({
         ref="4/C15"),
 })
 
+CHECKS.update({
+    "C10": dict(
+        technique="static analysis: cast / overflow-assert inventory over MIR of src/compiler + dominating range-guard recognition (dominators, value roots, enumerate/`?`/register-window idioms)",
+        text="Decides the width-crossing clause: every narrowing integer cast and every checked u8/u16 arithmetic in the bytecode "
+             "compiler is an obligation discharged only by a dominating range guard on the same value (or a recognised "
+             "allocator idiom). The unguarded sites of today's tree are genuine and listed as known findings, each with the "
+             "program that fails; a new unguarded site is a violation. The non-cumulative register clause is not decided.",
+        ref="4/C10"),
+})
+
 NOT_APPLICABLE = {
     "C04": "value equivalence with the TypeScript emit; no structural mechanism exists (DESIGN.md 4/C04)",
     "C09": "behaviour of a fixed-point loader over all graphs x schedules; structural parts are decided under C02/C19",
